@@ -3,30 +3,40 @@
    [restore_backup true] is the current code (per-file failures are counted and fail the restore,
    /repo 903522c = fixes/C13_restore_reports_failures.patch); [restore_backup false] is the previous
    code, kept as the record of the fixed finding.  The check determines on every run which of the
-   two the source implements (tools/props/C13.py); a revert shows up as a VIOLATION. *)
+   two the source implements (tools/props/C13.py); a revert shows up as a VIOLATION.
+   Backup options (IncludeMetadata / IncludeConfig), restore options (RestoreData / RestoreMetadata /
+   RestoreConfig), the manifest's HasMetadata / HasConfig and the local SQLite / arc.toml files are
+   part of the model ([bopts], [ropts], [lenv]). *)
 From Coq Require Import List ZArith NArith Bool Lia.
 From Arc Require Import Lib.AList Backup.Model Backup.Proofs.
 Import ListNotations.
 Open Scope Z_scope.
 
-(* No faults: for EVERY storage tree, backup id and skip ratio, a backup into an empty backup
-   store succeeds with nothing skipped, the restore into empty storage succeeds with
-   processed = total, and the destination holds, byte for byte and at the original paths,
-   exactly the listed .parquet and Iceberg-metadata files of the source (and nothing else). *)
-Theorem C13_roundtrip : forall permille strict id src,
-  let '(br, bpg, bk) := create_backup permille no_bfaults id src empty_bstore in
-  let '(rr, rpg, dst) := restore_backup strict no_rfaults id bk [] in
-  (exists m, br = BOk m /\ m_skipped m = 0) /\ rr = ROk /\ pg_processed rpg = pg_total_files rpg /\
-  forall p, plookup p dst = if selected p then plookup p src else None.
+(* No faults: for EVERY storage tree, local files, backup and restore options, backup id and skip
+   ratio, a backup into an empty backup store succeeds with nothing skipped and announces exactly
+   the requested parts that exist locally; the restore into empty storage succeeds with
+   processed = total; when data was requested the destination holds, byte for byte and at the
+   original paths, exactly the listed .parquet and Iceberg-metadata files of the source (and
+   nothing else); a requested part that was backed up comes back with its content. *)
+Theorem C13_roundtrip : forall permille strict BO RO benv renv id src,
+  let '(br, bpg, bk) := create_backup permille no_bfaults BO benv id src empty_bstore in
+  let '(rr, rpg, dst, env') := restore_backup strict no_rfaults RO id bk [] renv in
+  (exists m, br = BOk m /\ m_skipped m = 0 /\
+             m_has_meta m = (bo_meta BO && is_some (e_sqlite benv)) /\ m_has_cfg m = (bo_cfg BO && is_some (e_config benv))) /\
+  rr = ROk /\ pg_processed rpg = pg_total_files rpg /\
+  (ro_data RO = true -> forall p, plookup p dst = if selected p then plookup p src else None) /\
+  (ro_data RO = false -> dst = []) /\
+  (ro_meta RO = true -> bo_meta BO = true -> forall d, e_sqlite benv = Some d -> e_sqlite env' = Some d) /\
+  (ro_cfg RO = true -> bo_cfg BO = true -> forall d, e_config benv = Some d -> e_config env' = Some d).
 Proof. exact roundtrip. Qed.
 Print Assumptions C13_roundtrip.
 
-(* For EVERY tree and EVERY fault set: a backup that reports success stores its manifest,
+(* For EVERY tree, options and fault set: a backup that reports success stores its manifest,
    the manifest's skipped_files equals the number of inventoried files that could not be read,
    so any unreadable inventoried file makes it non-zero (= "incomplete"); and when it is zero
    every selected source file is in the backup with its content. *)
-Theorem C13_backup_flags_incomplete : forall permille F id src bk m pg bk',
-  create_backup permille F id src bk = (BOk m, pg, bk') ->
+Theorem C13_backup_flags_incomplete : forall permille F O env id src bk m pg bk',
+  create_backup permille F O env id src bk = (BOk m, pg, bk') ->
   plookup id (bs_manifests bk') = Some m /\
   m_skipped m = countb (fun f => negb (readable F src f)) (backup_files src) /\
   (forall p, In p (backup_files src) -> bf_read_src F p = true -> 0 < m_skipped m) /\
@@ -35,107 +45,161 @@ Theorem C13_backup_flags_incomplete : forall permille F id src bk m pg bk',
 Proof. exact backup_flags_incomplete. Qed.
 Print Assumptions C13_backup_flags_incomplete.
 
-(* The restore (current code): for EVERY backup store, destination and fault set, success is
-   reported only if every (listed) file of the backup is at its original path with its content. *)
-Theorem C13_restore_reports : forall R id bk dst pg dst',
-  restore_backup true R id bk dst = (ROk, pg, dst') ->
-  forall p d, p <> [] -> visible p = true -> plookup (data_prefix id ++ p) (bs_files bk) = Some d ->
-  plookup p dst' = Some d.
+(* ... and its HasMetadata / HasConfig flags tell the truth: an announced part was requested, is the
+   local file's content and is in the backup store; a requested part whose write did not fail is
+   announced iff the local file exists. *)
+Theorem C13_backup_part_flags : forall permille F O env id src bk m pg bk',
+  create_backup permille F O env id src bk = (BOk m, pg, bk') ->
+  (m_has_meta m = true -> exists d, bo_meta O = true /\ e_sqlite env = Some d /\ plookup id (bs_meta bk') = Some d) /\
+  (m_has_cfg m = true -> exists d, bo_cfg O = true /\ e_config env = Some d /\ plookup id (bs_cfg bk') = Some d) /\
+  (bo_meta O = true -> bf_write_meta F = false -> m_has_meta m = is_some (e_sqlite env)) /\
+  (bo_cfg O = true -> bf_write_cfg F = false -> m_has_cfg m = is_some (e_config env)).
+Proof. exact backup_part_flags. Qed.
+Print Assumptions C13_backup_part_flags.
+
+(* The restore (current code): for EVERY backup store, destination, local files, restore options and
+   fault set, success is reported only if EVERY REQUESTED PART is restored: every (listed) data file
+   of the backup is at its original path with its content when data was requested, and the SQLite
+   database / arc.toml the manifest announces are in place when metadata / config were requested. *)
+Theorem C13_restore_reports : forall R O id bk dst env pg dst' env',
+  restore_backup true R O id bk dst env = (ROk, pg, dst', env') ->
+  exists m, plookup id (bs_manifests bk) = Some m /\
+  (ro_data O = true -> forall p d, p <> [] -> visible p = true ->
+     plookup (data_prefix id ++ p) (bs_files bk) = Some d -> plookup p dst' = Some d) /\
+  (ro_meta O = true -> m_has_meta m = true -> exists d, plookup id (bs_meta bk) = Some d /\ e_sqlite env' = Some d) /\
+  (ro_cfg O = true -> m_has_cfg m = true -> exists d, plookup id (bs_cfg bk) = Some d /\ e_config env' = Some d).
 Proof. exact restore_reports_strict. Qed.
 Print Assumptions C13_restore_reports.
 
-(* The previous code (before 903522c) violated that: a restore one of whose files cannot be written reports success
-   and leaves the destination empty ... *)
+(* The property end to end, for EVERY tree, options and fault set during backup and restore:
+   if the backup reports success with skipped_files = 0 (into a store that holds nothing under
+   its fresh id) and the restore of the data into empty storage reports success with
+   processed_files = total_files, the destination equals the selected source files exactly. *)
+Theorem C13_end_to_end : forall permille strict F BO benv R RO id src bk0 m bpg bk rpg dst renv env',
+  (forall q, In q (map fst (bs_files bk0)) -> has_prefix (data_prefix id) q = false) ->
+  create_backup permille F BO benv id src bk0 = (BOk m, bpg, bk) -> m_skipped m = 0 ->
+  restore_backup strict R RO id bk [] renv = (ROk, rpg, dst, env') -> ro_data RO = true ->
+  pg_processed rpg = pg_total_files rpg ->
+  forall p, plookup p dst = if selected p then plookup p src else None.
+Proof. exact end_to_end. Qed.
+Print Assumptions C13_end_to_end.
+
+(* Counter and fault-set forms (both variants):
+   (a) success AND processed_files = total_files  =>  every backed-up data file is restored;
+   (b) the data step with no read/write fault on any file of the backup  =>  success, processed = total, all restored;
+   (c) no fault at all  =>  success and every requested part in place. *)
+Theorem C13_restore_reports_guarded : forall strict R O id bk dst env pg dst' env',
+  restore_backup strict R O id bk dst env = (ROk, pg, dst', env') -> ro_data O = true ->
+  pg_processed pg = pg_total_files pg ->
+  forall p d, p <> [] -> visible p = true -> plookup (data_prefix id ++ p) (bs_files bk) = Some d ->
+  plookup p dst' = Some d.
+Proof. exact restore_counts_complete. Qed.
+Print Assumptions C13_restore_reports_guarded.
+
+Theorem C13_restore_no_file_faults : forall strict R id bk m dst,
+  rf_list_bk R = false ->
+  ~ In (data_prefix id) (map fst (bs_files bk)) ->
+  (forall p, In (data_prefix id ++ p) (map fst (bs_files bk)) -> rf_read_bk R p = false /\ rf_write_dst R p = false) ->
+  let '(r, pg, dst') := restore_data strict R id bk m dst in
+  r = ROk /\ pg_completed pg = true /\ pg_processed pg = pg_total_files pg /\
+  forall p d, p <> [] -> visible p = true -> plookup (data_prefix id ++ p) (bs_files bk) = Some d -> plookup p dst' = Some d.
+Proof. exact restore_data_no_file_faults. Qed.
+Print Assumptions C13_restore_no_file_faults.
+
+Theorem C13_restore_no_faults : forall strict O id bk dst env m,
+  plookup id (bs_manifests bk) = Some m ->
+  ~ In (data_prefix id) (map fst (bs_files bk)) ->
+  (m_has_meta m = true -> plookup id (bs_meta bk) <> None) ->
+  (m_has_cfg m = true -> plookup id (bs_cfg bk) <> None) ->
+  let '(r, pg, dst', env') := restore_backup strict no_rfaults O id bk dst env in
+  r = ROk /\ pg_processed pg = pg_total_files pg /\
+  (ro_data O = true -> forall p d, p <> [] -> visible p = true ->
+     plookup (data_prefix id ++ p) (bs_files bk) = Some d -> plookup p dst' = Some d) /\
+  (ro_data O = false -> dst' = dst) /\
+  (ro_meta O = true -> m_has_meta m = true -> e_sqlite env' = plookup id (bs_meta bk)) /\
+  (ro_cfg O = true -> m_has_cfg m = true -> e_config env' = plookup id (bs_cfg bk)).
+Proof. exact restore_no_faults. Qed.
+Print Assumptions C13_restore_no_faults.
+
+(* ---- record of the fixed finding: the previous restore ([restore_backup false]) ------------------- *)
 Definition w_id : bytes := [98; 107; 49]%N.
 Definition w_f1 : path := [100; 98; 47; 99; 112; 117; 47; 50; 48; 50; 54; 47; 48; 49; 47; 48; 49; 47; 48; 48; 47; 97; 46; 112; 97; 114; 113; 117; 101; 116]%N.
 Definition w_f2 : path := [100; 98; 47; 99; 112; 117; 47; 50; 48; 50; 54; 47; 48; 49; 47; 48; 49; 47; 48; 49; 47; 98; 46; 112; 97; 114; 113; 117; 101; 116]%N.
 Definition w_src : tree := [(w_f1, [1;2;3]%N); (w_f2, [4;5]%N)].
 Definition w_rfaults : rfaults :=
   {| rf_read_manifest := false; rf_list_bk := false; rf_read_bk := fun _ => false;
-     rf_write_dst := fun p => bytes_eqb p w_f2 |}.
+     rf_write_dst := fun p => bytes_eqb p w_f2;
+     rf_read_meta := false; rf_read_cfg := false; rf_write_sqlite := false; rf_write_config := false |}.
+Definition no_bopts : bopts := {| bo_meta := false; bo_cfg := false |}.
+Definition all_bopts : bopts := {| bo_meta := true; bo_cfg := true |}.
+Definition data_only : ropts := {| ro_data := true; ro_meta := false; ro_cfg := false |}.
+Definition w_bk : bstore := snd (create_backup 100 no_bfaults no_bopts empty_lenv w_id w_src empty_bstore).
 
+(* it reported success although a file of the backup could not be written ... *)
 Theorem C13_restore_reports_refuted :
-  exists R id bk pg dst' p d,
-    restore_backup false R id bk [] = (ROk, pg, dst') /\
+  exists R O id bk pg dst' env' p d,
+    restore_backup false R O id bk [] empty_lenv = (ROk, pg, dst', env') /\ ro_data O = true /\
     p <> [] /\ visible p = true /\ plookup (data_prefix id ++ p) (bs_files bk) = Some d /\
     plookup p dst' = None.
 Proof.
-  exists w_rfaults, w_id, (snd (create_backup 100 no_bfaults w_id w_src empty_bstore)).
-  eexists. eexists. exists w_f2, [4;5]%N.
+  exists w_rfaults, data_only, w_id, w_bk.
+  eexists. eexists. eexists. exists w_f2, [4;5]%N.
   split; [vm_compute; reflexivity|]. repeat split; try (vm_compute; congruence).
 Qed.
 Print Assumptions C13_restore_reports_refuted.
 
-(* ... and in general: whatever per-file read/write faults occur, the unrepaired restore reports
-   success as soon as the manifest and the listing can be read. *)
-Theorem C13_restore_swallows_errors : forall R id bk dst m,
+(* ... and in general: whatever per-file read/write faults occurred, a data restore reported success
+   as soon as the manifest and the listing could be read. *)
+Theorem C13_restore_swallows_errors : forall R O id bk dst env m,
   rf_read_manifest R = false -> rf_list_bk R = false -> plookup id (bs_manifests bk) = Some m ->
-  fst (fst (restore_backup false R id bk dst)) = ROk /\
-  pg_completed (snd (fst (restore_backup false R id bk dst))) = true.
+  ro_meta O = false -> ro_cfg O = false ->
+  fst (fst (fst (restore_backup false R O id bk dst env))) = ROk.
 Proof. exact restore_swallows_errors. Qed.
 Print Assumptions C13_restore_swallows_errors.
-
-(* Counter and fault-set forms (they hold for both variants; for the previous code they were the strongest true statements):
-   (a) success AND processed_files = total_files  =>  every backed-up file is restored;
-   (b) no read/write fault on any file of the backup  =>  success, processed = total, all restored. *)
-Theorem C13_restore_reports_guarded : forall strict R id bk dst r pg dst',
-  restore_backup strict R id bk dst = (r, pg, dst') ->
-  pg_completed pg = true -> pg_processed pg = pg_total_files pg ->
-  forall p d, p <> [] -> visible p = true -> plookup (data_prefix id ++ p) (bs_files bk) = Some d ->
-  plookup p dst' = Some d.
-Proof. exact restore_counts_complete. Qed.
-Print Assumptions C13_restore_reports_guarded.
-
-Theorem C13_restore_no_file_faults : forall strict R id bk dst m,
-  rf_read_manifest R = false -> rf_list_bk R = false -> plookup id (bs_manifests bk) = Some m ->
-  ~ In (data_prefix id) (map fst (bs_files bk)) ->
-  (forall p, In (data_prefix id ++ p) (map fst (bs_files bk)) -> rf_read_bk R p = false /\ rf_write_dst R p = false) ->
-  let '(r, pg, dst') := restore_backup strict R id bk dst in
-  r = ROk /\ pg_processed pg = pg_total_files pg /\
-  forall p d, p <> [] -> visible p = true -> plookup (data_prefix id ++ p) (bs_files bk) = Some d -> plookup p dst' = Some d.
-Proof. exact restore_no_file_faults. Qed.
-Print Assumptions C13_restore_no_file_faults.
-
-(* The property end to end, for EVERY tree and EVERY fault set during backup and restore:
-   if the backup reports success with skipped_files = 0 (into a store that holds nothing under
-   its fresh id) and the restore into empty storage reports completion with
-   processed_files = total_files, the destination equals the selected source files exactly. *)
-Theorem C13_end_to_end : forall permille strict F R id src bk0 m bpg bk r rpg dst,
-  (forall q, In q (map fst (bs_files bk0)) -> has_prefix (data_prefix id) q = false) ->
-  create_backup permille F id src bk0 = (BOk m, bpg, bk) -> m_skipped m = 0 ->
-  restore_backup strict R id bk [] = (r, rpg, dst) -> pg_completed rpg = true ->
-  pg_processed rpg = pg_total_files rpg ->
-  forall p, plookup p dst = if selected p then plookup p src else None.
-Proof. exact end_to_end. Qed.
-Print Assumptions C13_end_to_end.
 
 (* ---- non-vacuity -------------------------------------------------------------------------- *)
 Definition e_meta : path := [97; 114; 99; 95; 100; 98; 46; 100; 98; 47; 99; 112; 117; 47; 109; 101; 116; 97; 100; 97; 116; 97; 47; 118; 49; 46; 109; 101; 116; 97; 100; 97; 116; 97; 46; 106; 115; 111; 110]%N.
 Definition e_junk : path := [100; 98; 47; 99; 112; 117; 47; 110; 111; 116; 101; 115; 46; 116; 120; 116]%N.
 Definition e_hidden : path := [100; 98; 47; 99; 112; 117; 47; 46; 104; 105; 100; 100; 101; 110; 46; 112; 97; 114; 113; 117; 101; 116]%N.
 Definition e_src : tree := [(w_f1, [1;2;3]%N); (e_meta, [9]%N); (e_junk, [7;7]%N); (e_hidden, [8]%N); (w_f2, [4;5]%N)].
+Definition e_benv : lenv := {| e_sqlite := Some [83;81;76]%N; e_config := Some [116;111;109;108]%N; e_sqlite_prev := None; e_config_prev := None |}.
+Definition e_renv : lenv := {| e_sqlite := Some [111;108;100]%N; e_config := None; e_sqlite_prev := None; e_config_prev := None |}.
 
-(* a concrete tree: data file, Iceberg metadata, a non-selected file and a hidden file *)
+(* a concrete tree (data file, Iceberg metadata, a non-selected file, a hidden file) with both optional
+   parts, restored in full over an existing SQLite file *)
 Example C13_roundtrip_nonvacuous :
-  let '(br, _, bk) := create_backup 100 no_bfaults w_id e_src empty_bstore in
-  let '(rr, rpg, dst) := restore_backup false no_rfaults w_id bk [] in
+  let '(br, _, bk) := create_backup 100 no_bfaults all_bopts e_benv w_id e_src empty_bstore in
+  let '(rr, rpg, dst, env') := restore_backup true no_rfaults all_ropts w_id bk [] e_renv in
   rr = ROk /\ pg_total_files rpg = 3 /\
   plookup w_f1 dst = Some [1;2;3]%N /\ plookup e_meta dst = Some [9]%N /\ plookup w_f2 dst = Some [4;5]%N /\
-  plookup e_junk dst = None /\ plookup e_hidden dst = None.
+  plookup e_junk dst = None /\ plookup e_hidden dst = None /\
+  e_sqlite env' = Some [83;81;76]%N /\ e_sqlite_prev env' = Some [111;108;100]%N /\ e_config env' = Some [116;111;109;108]%N.
+Proof. vm_compute. repeat split; reflexivity. Qed.
+
+(* the hypothesis of C13_restore_reports is satisfiable, and the combination it is about: a data-file
+   fault together with a metadata + config restore that would succeed is reported as a failure
+   (and, the data step failing first, the SQLite file is not touched) *)
+Example C13_restore_reports_nonvacuous :
+  let bk := snd (create_backup 100 no_bfaults all_bopts e_benv w_id w_src empty_bstore) in
+  fst (fst (fst (restore_backup true no_rfaults all_ropts w_id bk [] e_renv))) = ROk /\
+  fst (fst (fst (restore_backup true w_rfaults all_ropts w_id bk [] e_renv))) = RFailed /\
+  plookup w_f1 (snd (fst (restore_backup true w_rfaults all_ropts w_id bk [] e_renv))) = Some [1;2;3]%N /\
+  e_sqlite (snd (restore_backup true w_rfaults all_ropts w_id bk [] e_renv)) = Some [111;108;100]%N.
 Proof. vm_compute. repeat split; reflexivity. Qed.
 
 (* the hypotheses of C13_end_to_end are satisfiable WITH faults present (a read fault on a file the
    backup does not select, a write fault on a path that is not in the backup) *)
 Example C13_end_to_end_nonvacuous :
   let F := {| bf_list_src := false; bf_read_src := fun p => bytes_eqb p e_junk;
-              bf_write_bk := fun _ => false; bf_write_manifest := false |} in
+              bf_write_bk := fun _ => false; bf_write_manifest := false; bf_write_meta := true; bf_write_cfg := false |} in
   let R := {| rf_read_manifest := false; rf_list_bk := false; rf_read_bk := fun _ => false;
-              rf_write_dst := fun p => bytes_eqb p e_junk |} in
-  let '(br, _, bk) := create_backup 100 F w_id e_src empty_bstore in
-  let '(rr, rpg, _) := restore_backup false R w_id bk [] in
-  (exists m, br = BOk m /\ m_skipped m = 0) /\ rr = ROk /\ pg_completed rpg = true /\
+              rf_write_dst := fun p => bytes_eqb p e_junk;
+              rf_read_meta := true; rf_read_cfg := false; rf_write_sqlite := false; rf_write_config := false |} in
+  let '(br, _, bk) := create_backup 100 F all_bopts e_benv w_id e_src empty_bstore in
+  let '(rr, rpg, _, _) := restore_backup true R all_ropts w_id bk [] empty_lenv in
+  (exists m, br = BOk m /\ m_skipped m = 0 /\ m_has_meta m = false /\ m_has_cfg m = true) /\ rr = ROk /\
   pg_processed rpg = pg_total_files rpg.
-Proof. vm_compute. split; [eexists; split; reflexivity|]. repeat split; reflexivity. Qed.
+Proof. vm_compute. split; [eexists; repeat split; reflexivity|]. repeat split; reflexivity. Qed.
 
 (* a backup that skipped a file is flagged (1 of 11 files unreadable, ratio 10 %) *)
 Example C13_flags_nonvacuous :
@@ -143,19 +207,9 @@ Example C13_flags_nonvacuous :
   let src := map (fun kv => (fst kv ++ s_parquet, snd kv)) many in
   let bad := (w_f1 ++ [3]%N) ++ s_parquet in
   let F := {| bf_list_src := false; bf_read_src := fun p => bytes_eqb p bad;
-              bf_write_bk := fun _ => false; bf_write_manifest := false |} in
-  match fst (fst (create_backup 100 F w_id src empty_bstore)) with
+              bf_write_bk := fun _ => false; bf_write_manifest := false; bf_write_meta := false; bf_write_cfg := false |} in
+  match fst (fst (create_backup 100 F no_bopts empty_lenv w_id src empty_bstore)) with
   | BOk m => m_skipped m = 1 /\ m_total_files m = 11
   | BFailed => False
   end.
 Proof. vm_compute. split; reflexivity. Qed.
-
-(* the hypothesis of C13_restore_reports is satisfiable (fault-free restore of the example backup),
-   and on the refutation witness the repaired restore does report failure while still restoring
-   the file that could be restored *)
-Example C13_restore_reports_nonvacuous :
-  let bk := snd (create_backup 100 no_bfaults w_id w_src empty_bstore) in
-  fst (fst (restore_backup true no_rfaults w_id bk [])) = ROk /\
-  fst (fst (restore_backup true w_rfaults w_id bk [])) = RFailed /\
-  plookup w_f1 (snd (restore_backup true w_rfaults w_id bk [])) = Some [1;2;3]%N.
-Proof. vm_compute. repeat split; reflexivity. Qed.
